@@ -1397,6 +1397,9 @@ def filter_iteration(pol, via_fold):
                        % ('found' if pol == 'diff' else 'not found'), it)
                 return
             keep = (kind == 'miss') if pol == 'diff' else (kind == 'hit')
+            back = [e for e in seg if e[0] == 'adv' and len(e) > 3 and e[3] == 'back' and e[1] != X]
+            it_req(E, props, 'ORDER', not back, nm + ':fold',
+                   'fold must visit the elements in the order in which next() yields them (front to back)', it)
             if kind == 'unknown':
                 it_req(E, props, 'POL', False, nm + ':fold', 'the element was not conclusively looked up in the right operand', it)
                 return
@@ -1969,6 +1972,9 @@ def merge_iteration(mode):
             role = roles[mid]
             it = Iteration(E, st, seg)
             nm = body.name
+            if mode == 'fold':
+                it_req(E, props, 'ORDER', not (len(advs[0]) > 3 and advs[0][3] == 'back'), nm + ':fold',
+                       'fold must visit the elements in the order in which next() yields them (front to back)', it)
             calls = [e for e in seg if e[0] == 'user' and (e[1].endswith('::call_mut') or e[1].endswith('::call_once')
                                                           or e[1].endswith('::call') or e[1] == 'call')]
             consumed = isinstance(key, tuple) and key and key[0] in ('fold', 'count')   # the std driver's own loop
